@@ -4,6 +4,7 @@ package main
 
 import (
 	"fmt"
+	"os"
 	"go/ast"
 	"go/types"
 	"sort"
@@ -41,6 +42,9 @@ func verifyFunc(reg *Registry, pkgRel, key string) (rep FuncReport, obls []*Obli
 	fc := &fctx{reg: reg, name: name, contract: c, paramVals: map[string]*Value{}, ghostCalls: map[string]int{}}
 	defer func() {
 		if r := recover(); r != nil {
+			if os.Getenv("GOVC_DEBUG") != "" {
+				panic(r)
+			}
 			switch e := r.(type) {
 			case unsupportedErr:
 				rep.Error = "contract-detached:unsupported-construct: " + e.what
